@@ -2,10 +2,14 @@
 # builds coq/Extract/runner from the .ml files Separate Extraction left in coq/
 set -e
 cd "$(dirname "$0")"
-rm -rf ml; mkdir -p ml
-mv ../*.ml ../*.mli ml/ 2>/dev/null || true
+mkdir -p ml
+if ls ../*.ml >/dev/null 2>&1; then
+  rm -f ml/*
+  mv ../*.ml ml/
+  rm -f ../*.mli
+fi
 cp driver.ml Machines.ml ml/
 cd ml
-rm -f *.mli
+rm -f *.mli *.cmx *.cmi *.o
 ORDER=$(ocamlfind ocamldep -sort *.ml)
 ocamlfind ocamlopt -w -a -O2 -o ../runner $ORDER 2>/dev/null || ocamlfind ocamlopt -w -a -o ../runner $ORDER
